@@ -360,6 +360,22 @@ pub fn all_bytes_stage(rep: &mut Report, env: &AppEnv, stage: &str, bases: &[Vec
     });
 }
 
+/// Datagrams whose source port EQUALS their destination port (53 -> 53, 5353 -> 5353, every N ->
+/// N) and whose source address is a neighbour of the destination: an ordinary request.
+pub fn equal_ports_stage(rep: &mut Report, env: &AppEnv, stage: &str, payload: &[u8]) {
+    let t0 = std::time::Instant::now();
+    let opts = RunOpts::new(stage);
+    engine::run(
+        &env.cfg,
+        65536 * 2,
+        &opts,
+        |i| vec![Cmd::Frame(flow(i >= 65536, i as u16, i as u16).udp(payload))],
+        |_it: &Item, _s: &mut Sink| {},
+        &mut rep.sink,
+    );
+    rep.stage(stage, "one request as a datagram from port N to port N, all 65536 N x {v4,v6} (monitor)", 65536 * 2, t0);
+}
+
 /// Busy responder: the first segment of each conversation, then `nfill` OTHER connections (each
 /// one valid first data segment: junk / a complete HTTP request / a partial one / an SSH banner)
 /// through the same process, then the rest of each conversation with the acknowledgement number
@@ -512,6 +528,74 @@ pub fn busy_stage(rep: &mut Report, cfg: &Cfg, prop: &'static str, stage: &str, 
     rep.stage(stage, &format!("{} conversations: first segment, then {} other connections (junk / complete HTTP / partial HTTP / SSH banner) through the same process, then the remaining segments with acknowledgement numbers advanced past the replies: every reply equals the idle-process reply", convs.len(), fill.len()), total, t0);
 }
 
+/// Conversations on a flow whose SYN cookie is an edge value (0xffffffff / 0 / 0xfffffffe / 1, by
+/// choice of key; confirmed against the real SYN-ACK): the client's acknowledgement numbers wrap
+/// through 0 as it acknowledges the replies.  Every reply must equal the one the same conversation
+/// gets when the acknowledgement number is held at cookie + 1.
+pub fn edge_conv_stage(rep: &mut Report, prop: &'static str, stage: &str, convs: &[(String, Vec<Vec<u8>>)]) {
+    let t0 = std::time::Instant::now();
+    let edge: [([u64; 2], u32); 4] = [([0xdcdce3a2, 0x5eed], 0xffff_ffff), ([0x45a0fb78, 0x5eed], 0), ([0x45a99a18, 0x5eed], 0xffff_fffe), ([0x32b774b09, 0x5eed], 1)];
+    let canon = |r: Option<&[u8]>| crate::props::c19::canon_for("", r, true);
+    let f = flow4(40000, 80);
+    let mut n = 0u64;
+    let mut confirmed = 0u64;
+    for (key, cookie) in edge {
+        let ecfg = Cfg::base().with_key(key);
+        let mut d = match crate::driver::Driver::spawn(&ecfg) {
+            Ok(d) => d,
+            Err(e) => {
+                rep.sink.machinery_errors.push(e);
+                continue;
+            }
+        };
+        let syn = d.exec(&[Cmd::Reset, Cmd::Frame(f.tcp(5, 0, F_SYN, b""))]).map(|v| v[1].clone()).unwrap_or_default();
+        if syn.reply.as_deref().and_then(synack_seq) != Some(cookie) {
+            continue;
+        }
+        confirmed += 1;
+        let c = cookie.wrapping_add(1);
+        for (name, segs) in convs {
+            // held acknowledgement number: expected replies and their lengths
+            let mut cmds = vec![Cmd::Reset];
+            let mut off = 0u32;
+            for sg in segs {
+                cmds.push(Cmd::Frame(f.tcp(1000u32.wrapping_add(off), c, F_PSH | F_ACK, sg)));
+                off = off.wrapping_add(sg.len() as u32);
+            }
+            let held = d.exec(&cmds).unwrap_or_default();
+            // advancing acknowledgement number
+            let mut cmds2 = vec![Cmd::Reset];
+            let mut off = 0u32;
+            let mut got = 0u32;
+            for (k, sg) in segs.iter().enumerate() {
+                cmds2.push(Cmd::Frame(f.tcp(1000u32.wrapping_add(off), c.wrapping_add(got), F_PSH | F_ACK, sg)));
+                off = off.wrapping_add(sg.len() as u32);
+                got = got.wrapping_add(held.get(1 + k).and_then(|o| o.reply.as_deref()).and_then(crate::mask::app_payload).map(|(_, p)| p.len() as u32).unwrap_or(0));
+            }
+            let adv = d.exec(&cmds2).unwrap_or_default();
+            n += segs.len() as u64 * 2;
+            for k in 0..segs.len() {
+                let a = canon(held.get(1 + k).and_then(|o| o.reply.as_deref()));
+                let b = canon(adv.get(1 + k).and_then(|o| o.reply.as_deref()));
+                if a != b {
+                    rep.sink.violation(crate::engine::Violation {
+                        prop: prop.into(),
+                        key: format!("edge-cookie-conversation:{}", name),
+                        what: format!("conversation '{}' on a flow whose SYN cookie is {:#010x}, segment {}: with the acknowledgement number advanced past the replies the answer is {} instead of {}", name, cookie, k + 1, &b[..b.len().min(80)], &a[..a.len().min(80)]),
+                        cfg: ecfg.clone(),
+                        cmds: cmds2[..=1 + k].to_vec(),
+                        idx: n,
+                        stage: stage.to_string(),
+                    });
+                    break;
+                }
+            }
+        }
+    }
+    rep.sink.count("edge_cookie_keys_confirmed", confirmed);
+    rep.stage(stage, &format!("{} conversations x 4 keys under which the flow's SYN cookie is 0xffffffff / 0 / 0xfffffffe / 1: acknowledgement numbers held at cookie + 1 vs advanced past the replies (wrapping through 0)", convs.len()), n, t0);
+}
+
 /// The conversations of the busy-responder stages (name, segments).
 pub fn busy_convs() -> Vec<(String, Vec<Vec<u8>>)> {
     let http = b"GET /b HTTP/1.1\r\nHost: x\r\n\r\n".to_vec();
@@ -640,12 +724,17 @@ pub fn window_stage(rep: &mut Report, env: &AppEnv, stage: &str, req: &[u8], nwi
     let c4 = env.cookies[&key_of(&f4)].wrapping_add(1);
     engine::run(
         &env.cfg,
-        nwin + 64 + 256,
+        nwin + 64 + 256 + 8,
         &opts,
         |i| {
             let mut seg = TcpSeg::new(f4.cport, f4.sport, 1000, c4, F_PSH | F_ACK, req);
             if i < nwin {
                 seg.window = i as u16;
+            } else if i >= nwin + 64 + 256 {
+                // the request in a segment that also carries FIN (one-shot clients), with the other
+                // flag bits next to it
+                let k = i - nwin - 64 - 256;
+                seg.flags |= F_FIN | [0u16, F_URG, 0x40, 0x80, 0x100, F_URG | 0x40, 0xc0, F_URG | 0x100][k as usize];
             } else if i >= nwin + 64 {
                 // URG set, urgent pointer 0..127 (i.e. pointing at every byte of a short request), with
                 // and without ECE next to it
@@ -668,7 +757,7 @@ pub fn window_stage(rep: &mut Report, env: &AppEnv, stage: &str, req: &[u8], nwi
         },
         &mut rep.sink,
     );
-    rep.stage(stage, &format!("a complete request with every advertised window 0..{} and 8 larger ones x urgent pointer values / URG flag; URG (and URG|ECE) with every urgent pointer 0..127", nwin - 1), nwin + 64 + 256, t0);
+    rep.stage(stage, &format!("a complete request with every advertised window 0..{} and 8 larger ones x urgent pointer values / URG flag; URG (and URG|ECE) with every urgent pointer 0..127; PSH|ACK|FIN with 8 sets of further flag bits", nwin - 1), nwin + 64 + 256 + 8, t0);
 }
 
 pub fn run_c13(rep: &mut Report, thorough: bool) {
@@ -763,6 +852,9 @@ pub fn run_c13(rep: &mut Report, thorough: bool) {
         if env.cfg.self_ips.is_empty() || thorough {
             let convs: Vec<(String, Vec<Vec<u8>>)> = busy_convs().into_iter().filter(|c| ["http"].iter().any(|p| c.0.starts_with(p))).collect();
             busy_stage(rep, &env.cfg, "C13", &format!("http-busy-responder-{}", tag), &convs, 70_000);
+            if env.cfg.self_ips.is_empty() {
+                edge_conv_stage(rep, "C13", "http-edge-cookie-conversations", &convs);
+            }
         }
         // keep-alive: a second and third complete request on a connection whose earlier requests
         // were answered
@@ -908,6 +1000,7 @@ pub fn run_c14(rep: &mut Report, thorough: bool) {
             (p4, appdns::build_query(0x0e0f, 0x0100, &qs))
         });
         crate::props::pairs::pair_histories(rep, &env.cfg, &format!("dns-pair-histories-{}", tag), &crate::props::pairs::datagram_variants("dns", &[appdns::build_query(5, 0x0100, &q1), appdns::build_query(6, 0, &[(dns_labels("a.b"), 1, 1), (dns_labels("c"), 1, 1)]), appdns::build_query(7, 0x0100, &[(dns_labels("version.bind"), 16, 3)])]));
+        equal_ports_stage(rep, &env, &format!("dns-equal-ports-{}", tag), &appdns::build_query(5, 0x0100, &q1));
         envelope_stage(rep, &env, &format!("dns-envelope-{}", tag), &appdns::build_query(5, 0x0100, &q1), false, true);
         if env.cfg.self_ips.is_empty() || thorough {
             all_words_stage(rep, &env, &format!("dns-all-words-{}", tag), &[appdns::build_query(5, 0x0100, &[(dns_labels("ab.c"), 1, 1)])], false, thorough);
@@ -1292,12 +1385,16 @@ pub fn run_c15(rep: &mut Report, thorough: bool) {
             if env.cfg.self_ips.is_empty() || thorough {
             let convs: Vec<(String, Vec<Vec<u8>>)> = busy_convs().into_iter().filter(|c| ["stun"].iter().any(|p| c.0.starts_with(p))).collect();
             busy_stage(rep, &env.cfg, "C15", &format!("stun-busy-responder-{}", tag), &convs, 70_000);
+            if env.cfg.self_ips.is_empty() {
+                edge_conv_stage(rep, "C15", "stun-edge-cookie-conversations", &convs);
+            }
         }
             envelope_stage(rep, &env, &format!("stun-envelope-{}", tag), &stun_magic(&[], &ID12), true, true);
             if env.cfg.self_ips.is_empty() || thorough {
                 all_words_stage(rep, &env, &format!("stun-all-words-{}", tag), &[stun_magic(&stun_attr(3, &[0, 0, 0, 2]), &ID12), stun_classic(&stun_attr(3, &[0, 0, 0, 2]), &ID16)], false, thorough);
             }
             all_bytes_stage(rep, &env, &format!("stun-all-byte-values-{}", tag), &[stun_magic(&[], &ID12), stun_classic(&stun_attr(3, &[0, 0, 0, 2]), &ID16), stun_magic(&stun_attr(0x8022, b"abcd"), &ID12)], true, true);
+            equal_ports_stage(rep, &env, &format!("stun-equal-ports-{}", tag), &stun_classic(&stun_attr(3, &[0, 0, 0, 2]), &ID16));
             envelope_stage(rep, &env, &format!("stun-envelope-change-{}", tag), &stun_classic(&stun_attr(3, &[0, 0, 0, 2]), &ID16), false, true);
             // every assigned attribute type (RFC 3489 / 5389 / 5780 ranges) with WELL-FORMED values
             // of the shapes those attributes have (IPv4 / IPv6 address with another port, flag
@@ -1472,6 +1569,9 @@ pub fn run_c16(rep: &mut Report, thorough: bool) {
         if env.cfg.self_ips.is_empty() || thorough {
             let convs: Vec<(String, Vec<Vec<u8>>)> = busy_convs().into_iter().filter(|c| ["rpc"].iter().any(|p| c.0.starts_with(p))).collect();
             busy_stage(rep, &env.cfg, "C16", &format!("rpc-busy-responder-{}", tag), &convs, 70_000);
+            if env.cfg.self_ips.is_empty() {
+                edge_conv_stage(rep, "C16", "rpc-edge-cookie-conversations", &convs);
+            }
         }
         window_stage(rep, &env, &format!("rpc-window-getport-{}", tag), &apprpc::with_record_mark(&apprpc::build_call(0x61626364, 2, 100000, 2, 3, &[], &[])), 256);
         window_stage(rep, &env, &format!("rpc-window-dump-{}", tag), &apprpc::with_record_mark(&apprpc::build_call(0x61626364, 2, 100000, 4, 4, &[], &[])), 256);
@@ -1481,6 +1581,7 @@ pub fn run_c16(rep: &mut Report, thorough: bool) {
         all_bytes_stage(rep, &env, &format!("rpc-all-byte-values-udp-{}", tag), &[apprpc::build_call(0x61626364, 2, 100000, 2, 3, &[], &[]), apprpc::build_call(0x61626364, 2, 100000, 4, 4, &[1, 2, 3, 4], &[5, 6, 7, 8])], false, true);
         all_bytes_stage(rep, &env, &format!("rpc-all-byte-values-tcp-{}", tag), &[apprpc::with_record_mark(&apprpc::build_call(0x61626364, 2, 100000, 3, 3, &[], &[]))], true, false);
         envelope_stage(rep, &env, &format!("rpc-envelope-tcp-{}", tag), &apprpc::with_record_mark(&apprpc::build_call(0x61626364, 2, 100000, 3, 3, &[], &[])), true, false);
+        equal_ports_stage(rep, &env, &format!("rpc-equal-ports-{}", tag), &apprpc::build_call(0x61626364, 2, 100000, 4, 3, &[], &[]));
         envelope_stage(rep, &env, &format!("rpc-envelope-udp-{}", tag), &apprpc::build_call(0x61626364, 2, 100000, 2, 3, &[], &[]), false, true);
         // destination ports and addresses (UDP, monitor)
         let t0 = std::time::Instant::now();
@@ -1735,6 +1836,9 @@ pub fn run_c17(rep: &mut Report, thorough: bool) {
             if env.cfg.self_ips.is_empty() || thorough {
             let convs: Vec<(String, Vec<Vec<u8>>)> = busy_convs().into_iter().filter(|c| ["smb"].iter().any(|p| c.0.starts_with(p))).collect();
             busy_stage(rep, &env.cfg, "C17", &format!("smb-busy-responder-{}", tag), &convs, 70_000);
+            if env.cfg.self_ips.is_empty() {
+                edge_conv_stage(rep, "C17", "smb-edge-cookie-conversations", &convs);
+            }
         }
             window_stage(rep, &env, &format!("smb2-window-{}", tag), &pls[1], 512);
             envelope_stage(rep, &env, &format!("smb1-envelope-{}", tag), &pls[0], true, true);
@@ -2023,6 +2127,9 @@ pub fn run_c18(rep: &mut Report, thorough: bool) {
             if env.cfg.self_ips.is_empty() || thorough {
             let convs: Vec<(String, Vec<Vec<u8>>)> = busy_convs().into_iter().filter(|c| ["ssh", "ghost"].iter().any(|p| c.0.starts_with(p))).collect();
             busy_stage(rep, &env.cfg, "C18", &format!("ssh-ghost-busy-responder-{}", tag), &convs, 70_000);
+            if env.cfg.self_ips.is_empty() {
+                edge_conv_stage(rep, "C18", "ssh-ghost-edge-cookie-conversations", &convs);
+            }
         }
             window_stage(rep, &env, &format!("ghost-window-{}", tag), &ghost_request(), 256);
             envelope_stage(rep, &env, &format!("ssh-envelope-{}", tag), b"SSH-2.0-e\r\n", true, true);
